@@ -115,7 +115,7 @@ func needPerPortPassthroughFilterChain(port uint32, node *model.Proxy) bool {
 	// means the port is going to be handled by the pass through filter chain.
 	if node.SidecarScope.HasIngressListener() {
 		for _, ingressListener := range node.SidecarScope.Sidecar.Ingress {
-			if port == ingressListener.Port.Number {
+			if port == ingressListener.GetPort().GetNumber() {
 				return false
 			}
 		}
